@@ -271,6 +271,7 @@ func c16Range(t *testing.T, unit string, lo, hi uint64, f func(i uint64) uint64)
 }
 
 func TestC16(t *testing.T) {
+	defer harness.Uncaught(t)
 	id := func(i uint64) uint64 { return i }
 	shard := func(n uint64) (uint64, uint64) {
 		lo, hi := harness.ShardRange(int64(n))
